@@ -442,6 +442,8 @@ class MinErrorFlow():
                     return True
                 else:
                     utils.logger.warning(f"{__name__}: model not solved, status = {self.solver.get_model_status()}")
+                    # The model is not solved: do not keep serving the solution cached by the hack above
+                    self._solution = None
                 
         self._is_solved = False
         return False
